@@ -1,6 +1,7 @@
 import MxModel.Props.C03
 import MxModel.Props.C02
 import MxModel.Proofs.StructMechCor
+import MxModel.Proofs.StructMechLive
 /-!
 # C13 – deletion is complete (structural part)
 
@@ -116,14 +117,38 @@ theorem delete_keeps_the_rest (kw : List String) (ops : List Op) (p : Path) (st'
     (hnp : isPrefix p q = false) : q ∈ st'.ids :=
   (ids_delSpace _ st' p hop q).mpr ⟨hq, hnp⟩
 
+/-- **Deletion deletes nothing else** (member): exactly the definitions can be deleted
+(`delMember_isSome`); after an accepted deletion the spaces, their bases and every OTHER definition -
+other names, other spaces, the other kind of member - are what they were.  With `no_orphan_derived` this
+fixes the whole state after the deletion. -/
+theorem deleted_member_frame (kw : List String) (ops : List Op) (a : Attr) (p : Path) (name : String)
+    (st' : St) (hop : (St.run kw {} ops).delMember a p name = some st') :
+    st'.ids = (St.run kw {} ops).ids ∧ st'.basesOf = (St.run kw {} ops).basesOf ∧
+    st'.globals = (St.run kw {} ops).globals ∧
+    ∀ a' q n', ¬ (q = p ∧ a' = a ∧ n' = name) → st'.defd a' q n' = (St.run kw {} ops).defd a' q n' := by
+  obtain ⟨hs, hu⟩ := delMember_spec _ st' (run_inv kw ops).wf.keys a p name hop
+  refine ⟨hs.ids, hs.basesOf, hs.globals, ?_⟩
+  intro a' q n' hc
+  rw [hu a' q n']; simp [hc]
+
+/-- **Deletion deletes nothing else** (space): the surviving spaces keep every definition and lose
+from their direct bases exactly the removed spaces; the model-level references stay -/
+theorem deleted_space_frame (kw : List String) (ops : List Op) (p : Path) (st' : St)
+    (hop : (St.run kw {} ops).delSpace p = some st') (q : Path) (hnp : isPrefix p q = false) :
+    (∀ a n, st'.defd a q n = (St.run kw {} ops).defd a q n) ∧
+    st'.basesOf q = ((St.run kw {} ops).basesOf q).filter (fun b => !((St.run kw {} ops).removedBy p).contains b) ∧
+    st'.globals = (St.run kw {} ops).globals := by
+  have D := delSpace_spec _ st' (run_inv kw ops).wf.keys p hop
+  refine ⟨fun a n => by rw [D.defs a q n]; simp [hnp], by rw [D.basesOf q]; simp [hnp], D.globals⟩
+
 /-! Non-vacuity: `D(B, C)`, `B(A)`, `C(A)`, `f` defined in `A` and `C`; a child `A.K` with a sub
 space `E(A.K)`.  Deleting `C.f` keeps `D.f` (now from `A`); deleting `A.f` too removes it;
 deleting `A` removes `A` and `A.K` from every base list and linearisation and the members
 derived from them. -/
 def delOps : List Op := [
-  .newSpace [] "A" [], .newCells ["A"] "f" 1, .newSpace [] "B" [["A"]], .newSpace [] "C" [["A"]],
-  .setFormula ["C"] "f" 2, .newSpace [] "D" [["B"], ["C"]], .newSpace ["A"] "K" [],
-  .newCells ["A", "K"] "g" 5, .newSpace [] "E" [["A", "K"]]]
+  .newSpace [] "A" [] [], .newCells ["A"] "f" "f" 1, .newSpace [] "B" [["A"]] [], .newSpace [] "C" [["A"]] [],
+  .setFormula ["C"] "f" 2, .newSpace [] "D" [["B"], ["C"]] [], .newSpace ["A"] "K" [] [],
+  .newCells ["A", "K"] "g" "g" 5, .newSpace [] "E" [["A", "K"]] []]
 
 example : (St.run [] {} delOps).mem .cells ["E"] "g" = some { derived := true, payload := 5 } := by decide
 example : (St.run [] {} (delOps ++ [.delCells ["C"] "f"])).mem .cells ["D"] "f"
